@@ -71,8 +71,11 @@ example : 90 ≤ codeMap.length ∧ 10 ≤ classGraph.length ∧
 
 /-! ### (a) the shape of the two `parse` methods and the writers of the cursor -/
 
-/-- the `finally` block of the live `Parser.parse` assigns exactly what `resetCursor` models -/
-theorem finally_matches_model : parseFinally = resetFields := by decide +kernel
+/-- the `finally` block of the live `Parser.parse` assigns exactly what `resetCursor` models (same
+attributes, same values; the order of the assignments is irrelevant) -/
+theorem finally_matches_model :
+    parseFinally.all (resetFields.contains ·) = true ∧ resetFields.all (parseFinally.contains ·) = true := by
+  decide +kernel
 
 /-- nothing but the `assert` runs before the protected region of `Parser.parse`, and the tokenizer
 call, `advance`, `expression` and the `(end)` check are inside it -/
